@@ -963,7 +963,7 @@ fn tier_params(prop: &str, tier: &str) -> Tier {
             minimise_budget: 40,
         },
         ("C01", _) => Tier {
-            runs: 1_500_000,
+            runs: 3_000_000,
             batch: 500,
             max_wall: 1800,
             minimise_budget: 120,
@@ -975,7 +975,7 @@ fn tier_params(prop: &str, tier: &str) -> Tier {
             minimise_budget: 40,
         },
         _ => Tier {
-            runs: 1_000_000,
+            runs: 1_500_000,
             batch: 400,
             max_wall: 1800,
             minimise_budget: 120,
